@@ -38,7 +38,12 @@ fn viol(report: &Report, class: &str, s: &str, msg: String) {
     report.violation(Violation {
         signature: format!("C13|{class}"),
         scenario: "normalized-string".into(),
-        replay: json!({"input_utf8_hex": mc::util::hex(s.as_bytes()), "input_debug": format!("{s:?}")}),
+        replay: if s.len() > 4096 {
+            // long inputs are one character repeated (see the length sweep): store the recipe, not gigabytes
+            json!({"repeat_char": s.chars().next().map(|c| c.to_string()), "times": s.chars().count(), "byte_length": s.len()})
+        } else {
+            json!({"input_utf8_hex": mc::util::hex(s.as_bytes()), "input_debug": format!("{s:?}")})
+        },
         detail: json!({ "message": msg }),
     });
 }
@@ -241,6 +246,36 @@ pub fn run(tier: Tier, seed: u64) -> i32 {
             check_full(&report, &s);
             fills += 1;
         }
+    }
+    // (4a) every length up to 1,100 and around the 2^16 / 2^17 / 2^24 (thorough: 2^32) marks: a length held in a narrow
+    //      integer wraps there and a too-long string slips through the gate
+    {
+        let mut lens: Vec<usize> = (65..=1100).collect();
+        for base in [1usize << 16, 1 << 17, 3 << 16, 1 << 24] {
+            lens.extend(base - 2..=base + 18);
+        }
+        let long = AtomicU64::new(0);
+        if tier == Tier::Thorough {
+            // 4 GiB strings one at a time (memory), one fill character
+            for l in (1usize << 32) - 1..=(1usize << 32) + 17 {
+                let s: String = std::iter::repeat('a').take(l).collect();
+                check_fast(&report, &s);
+                long.fetch_add(1, Ordering::Relaxed);
+            }
+        }
+        lens.par_iter().for_each(|&l| {
+            for c in ['a', 'Z', ' '] {
+                let s: String = std::iter::repeat(c).take(l).collect();
+                if l <= 70_000 {
+                    check_full(&report, &s);
+                } else {
+                    check_fast(&report, &s);
+                }
+                long.fetch_add(1, Ordering::Relaxed);
+            }
+        });
+        fills += long.load(Ordering::Relaxed);
+        report.count("long_strings", long.load(Ordering::Relaxed));
     }
     // every printable ASCII char at every position of a 16-char string (including the ones the suite's list omits)
     for b in 0x20u8..=0x7E {
